@@ -405,11 +405,14 @@ func reencode(tree *node, op string, c chooser) []byte {
 			}
 			s := []byte(n.str)
 			i := len(s) - 1
-			for s[i] == '=' {
+			for i > 0 && s[i] == '=' {
 				i--
 			}
 			const alpha = "ABCDEFGHIJKLMNOPQRSTUVWXYZabcdefghijklmnopqrstuvwxyz0123456789+/"
 			v := strings.IndexByte(alpha, s[i])
+			if v < 0 {
+				continue // (stacked operators: a line break was inserted here before)
+			}
 			s[i] = alpha[v|1] // set an unused low bit
 			if string(s) == n.str {
 				s[i] = alpha[v|2]
